@@ -31,9 +31,25 @@ class C14(Prop):
                    "worker death (as opposed to a raising task) is outside the fault model"]
 
     def plan(self, tier):
+        # group "xproc": the same seeds, reference run only, in few long-lived interpreters with another hash seed:
+        # every case there runs after a different set of earlier calls than in the main group
         if tier == "quick":
-            return {"nojit": dict(count=112, workers=16), "_soft_deadline": 90}
-        return {"nojit": dict(count=6000, workers=16), "_soft_deadline": 1500}
+            return {"nojit": dict(count=112, workers=15, seed_tag="all"),
+                    "xproc": dict(mode="nojit", count=112, workers=1, seed_tag="all", hashseed="4242"),
+                    "_soft_deadline": 90}
+        return {"nojit": dict(count=6000, workers=14, seed_tag="all"),
+                "xproc": dict(mode="nojit", count=6000, workers=2, seed_tag="all", hashseed="4242"),
+                "_soft_deadline": 1500}
+
+    def base_case(self, seed):
+        case = workload.gen_case("C14", seed, lambda_forms=("float", "float", "matrix_const", "matrix_sym"),
+                                 beta_forms=("int", "float", "vector_const", "vector_rand"), big_nw_p=0.0,
+                                 limits=(1, 2, 3, 5, 20))
+        # reference: FIFO, one worker, warm caches, fresh history
+        case["mp_switch"] = False
+        case["pool"] = dict(kind="sim", sched_seed=0, bias="fifo", eager_pickle_p=1.0, cold_cache=False,
+                            choices=[], direct=False)
+        return case
 
     # ------------------------------------------------------------------
     def variants(self, case, seed, tier, ref_out):
@@ -73,6 +89,13 @@ class C14(Prop):
             hist.append(h)
         c["history"] = hist
         c["pool"]["sched_seed"] = core.H(seed, "sweep")
+        if r.random() < 0.5:
+            # the whole sweep runs with the pool enabled and the same worker count
+            c["mp_switch"] = True
+            c["args"]["num_processors"] = r.randint(1, 4)
+            for h in hist:
+                h["mp_switch"] = True
+                h["args"]["num_processors"] = c["args"]["num_processors"]
         vs.append(("history", c))
         # preceding process history
         for hno in range(2 if tier == "quick" else 3):
@@ -100,16 +123,21 @@ class C14(Prop):
         return vs
 
     def run_case(self, idx, seed, tier, mode):
+        import os
         rec = Record()
-        case = workload.gen_case("C14", seed, lambda_forms=("float", "float", "matrix_const", "matrix_sym"),
-                                 beta_forms=("int", "float", "vector_const", "vector_rand"))
-        # reference: FIFO, one worker, warm caches, fresh history
-        case["mp_switch"] = False
-        case["pool"] = dict(kind="sim", sched_seed=0, bias="fifo", eager_pickle_p=1.0, cold_cache=False,
-                            choices=[], direct=False)
+        case = self.base_case(seed)
+        if os.environ.get("TICCSIM_GROUP") == "xproc":
+            ref = runner.execute(case, record=False)
+            rec.absorb(ref)
+            rec["ref_fp"] = list(fingerprint(ref))
+            rec["xproc"] = True
+            rec["sig"] = ["xproc", seed % 10 ** 9]
+            rec.probe("xproc_reference_runs")
+            return rec
         ref = runner.execute(case)
         rec.absorb(ref)
         fp0 = fingerprint(ref)
+        rec["ref_fp"] = list(fp0)
         rec["sample"] = dict(case=workload.brief(case), reference=list(fp0),
                              rounds=trace.rounds(ref), exit=trace.exit_reason(ref) if ref.ok else None)
         # plain repetition (also the determinism self-test of the harness)
@@ -170,14 +198,63 @@ class C14(Prop):
             f["case"] = safe(lambda: self.minimise_pair(f["case"], f["key"]), rec, "minimise") or f["case"]
         return rec
 
+    # parent side: the same case after different process histories ---------------------
+    def cross_check(self, records):
+        main = {r["idx"]: r for r in records if "ref_fp" in r and not r.get("xproc")}
+        xp = sorted((r for r in records if r.get("xproc")), key=lambda r: r["idx"])
+        findings = []
+        compared = 0
+        for r in xp:
+            m = main.get(r["idx"])
+            if m is None:
+                continue
+            compared += 1
+            if m["ref_fp"] != r["ref_fp"] and not findings:
+                earlier = [q["seed"] for q in xp if q["idx"] < r["idx"] and q.get("stripe") == r.get("stripe")]
+                f = finding("C14", "C14:process_history",
+                            f"the same seeded call gives {m['ref_fp']} in one interpreter and {r['ref_fp']} in another "
+                            f"interpreter where {len(earlier)} other calls had been made before it",
+                            dict(what="xproc", seed=r["seed"], earlier=earlier))
+                findings.append(f)
+        for r in records:
+            if "ref_fp" in r:
+                r.setdefault("probes", {})["cases_compared_across_process_histories"] = compared
+                break
+        return findings
+
     # ------------------------------------------------------------------
     def replay(self, rp):
+        if rp.get("what") == "xproc":
+            return self.replay_xproc(rp)
         ref = runner.execute(rp["ref"], record=False)
         out = runner.execute(rp["variant"], record=False)
         fp0, fp = fingerprint(ref), fingerprint(out)
         if fp != fp0:
             return [finding("C14", f"C14:{rp['what']}", f"{rp['what']} variant differs from reference: {fp0} vs {fp}",
                             rp, extra=dict(event_digest=out.event_digest))]
+        return []
+
+    def replay_xproc(self, rp):
+        """This (fresh) interpreter makes the earlier calls and then the call; a child interpreter makes the call alone."""
+        import json
+        import os
+        import subprocess
+        import sys
+        for s_ in rp["earlier"]:
+            runner.execute(self.base_case(s_), record=False)
+        out = runner.execute(self.base_case(rp["seed"]), record=False)
+        fp_after = list(fingerprint(out))
+        p = subprocess.run([sys.executable, "-m", "ticcsim.props.C14", str(rp["seed"])], env=core.mode_env("nojit"),
+                           cwd=core.VERIF_ROOT, capture_output=True, text=True, timeout=900)
+        fp_alone = None
+        for line in p.stdout.splitlines():
+            if line.startswith("FP "):
+                fp_alone = json.loads(line[3:])
+        if fp_alone is None:
+            raise core.HarnessError("child interpreter gave no fingerprint: " + (p.stdout + p.stderr)[-300:])
+        if fp_alone != fp_after:
+            return [finding("C14", "C14:process_history", f"alone in a fresh interpreter: {fp_alone}; after "
+                            f"{len(rp['earlier'])} earlier calls: {fp_after}", rp, extra=dict(event_digest=out.event_digest))]
         return []
 
     def minimise_pair(self, rp, key, budget=24):
@@ -224,3 +301,11 @@ class C14(Prop):
 
 
 PROP = C14()
+
+if __name__ == "__main__":
+    import json as _json
+    import sys as _sys
+    from ticcsim.props import C14 as _self          # avoid the __main__ double-load trap
+    core.load_fast_ticc()
+    _o = runner.execute(_self.PROP.base_case(int(_sys.argv[1])), record=False)
+    print("FP " + _json.dumps(list(_self.fingerprint(_o))))
